@@ -31,12 +31,13 @@ func childMain() {
 	port, _ := strconv.Atoi(os.Getenv("C13_PORT"))
 	dscp, _ := strconv.Atoi(os.Getenv("C13_DSCP"))
 	mode := os.Getenv("C13_MODE")
+	zone := os.Getenv("C13_ZONE") // "lo": hardware timestamping on an interface that has none, i.e. no kernel timestamps
 	log := slog.New(slog.NewTextHandler(io.Discard, &slog.HandlerOptions{Level: slog.LevelError + 8}))
 	ctx := context.Background()
 	timebase.RegisterClock(clocks.NewSystemClock(log, clocks.UnknownDrift))
 	switch mode {
 	case "srv":
-		server.StartSCIONServer(ctx, log, "" /* daemonAddr */, &net.UDPAddr{IP: ip, Port: port}, uint8(dscp), ntske.NewProvider())
+		server.StartSCIONServer(ctx, log, "" /* daemonAddr */, &net.UDPAddr{IP: ip, Port: port, Zone: zone}, uint8(dscp), ntske.NewProvider())
 	case "srvkeys":
 		// real-derivation keys: fetchers on a fake daemon whose host-AS keys depend on
 		// (protocol, fast-side IA and host, slow-side IA) as real DRKeys do
@@ -54,10 +55,12 @@ func childMain() {
 		}
 		server.VerifC13StartSCIONServer(ctx, log, dc, &net.UDPAddr{IP: ip, Port: port}, uint8(dscp), ntske.NewProvider())
 	case "disp":
-		server.StartSCIONDispatcher(ctx, log, &net.UDPAddr{IP: ip, Port: port})
+		server.StartSCIONDispatcher(ctx, log, &net.UDPAddr{IP: ip, Port: port, Zone: zone})
 	default:
 		os.Exit(3)
 	}
+	// the listener goroutines enable timestamping on their sockets first thing
+	time.Sleep(100 * time.Millisecond)
 	fmt.Println("ready")
 	// exit with the parent
 	io.Copy(io.Discard, os.Stdin)
@@ -69,10 +72,15 @@ func childMain() {
 type childCfg struct {
 	mode string
 	mock int
+	lo   bool // listener sockets with zone "lo": no kernel rx / tx timestamps (modes srv with mock keys, disp)
 }
 
 func (c childCfg) ip() string {
 	switch {
+	case c.lo && c.mode == "disp":
+		return "127.0.13.15"
+	case c.lo:
+		return "127.0.13.14"
 	case c.mode == "srvkeys":
 		return "127.0.13.11"
 	case c.mode == "srvgrpc":
@@ -140,6 +148,9 @@ func startChild(cfg childCfg) (*child, error) {
 			"C13_DSCP="+strconv.Itoa(childDSCP), "C13_MODE="+cfg.mode)
 		if cfg.mock == 1 {
 			env = append(env, "USE_MOCK_KEYS=true")
+		}
+		if cfg.lo {
+			env = append(env, "C13_ZONE=lo")
 		}
 		cmd.Env = env
 		ch := &child{cfg: cfg, cmd: cmd, stderr: &syncBuf{}, done: make(chan struct{})}
